@@ -12,6 +12,7 @@ import RapidProofs.TranslatedMinEq
 import RapidProofs.TranslatedPruneEq
 import RapidProofs.PruneLiteralRun
 import RapidProofs.TranslatedRecEq
+import RapidProofs.TranslatedShrinkRun
 
 namespace Rapid.C05
 
@@ -243,5 +244,56 @@ example : (⟨[1, 2, 3], [⟨"a", true, 0, 1, false⟩, ⟨"b", true, 1, 2, true
   intro g hg
   simp only [List.mem_cons, List.not_mem_nil, or_false] at hg
   rcases hg with rfl | rfl | rfl <;> exact ⟨by decide, by decide, by decide⟩
+
+/-! ### the passes of the shrinker, as translated from /repo's shrink.go on every run -/
+
+/-- **every pass of the shrinker and the round loop of `shrinker.shrink`, as translated from the source, agree with the model's
+    `shrinkScript`** against *every* shrinker `o` (any state space, any behaviour of `accept`) whose states are well-formed
+    (recordings of fewer than 2^61 entries, finished groups that do not end before they begin, a rejected candidate leaves the
+    recording alone, fewer than 2^62 accepted candidates): with `fuel ≤ F` the source proposes the same candidates in the same
+    order from the same states and ends in the same state as the model, hits an out-of-range index exactly where the model does,
+    or runs out of fuel (a deadline cut, which may happen anywhere).  `removeGroups`, `minimizeBlocks` with `minimize` and the
+    `minimizer` calling back into `accept`, `lowerFloatHack`, `removeGroupsAndLower`, `sortGroups`, `removeGroupSpans`. -/
+theorem source_shrinker_passes {σ : Type} (o : Oracle σ) (wf : o.WF) (hsh : ∀ s, (o.view s).shrinks < 2 ^ 62) (F fuel : Nat)
+    (h : fuel ≤ F) (s : σ) :
+    Agree (fun _ _ => True) (Rapid.SM.exec o (Rapid.Translated.shrinker_shrink fuel) s) ((shrinkScript F).exec o s) :=
+  tr_shrink o wf hsh F fuel h s
+
+/-- each pass on its own -/
+theorem source_passes_one_by_one {σ : Type} (o : Oracle σ) (wf : o.WF) (fuel fm : Nat) (h : fuel ≤ fm) (s : σ) :
+    Agree (fun _ _ => True) (Rapid.SM.exec o (Rapid.Translated.shrinker_removeGroups fuel) s) ((removeGroups fm 0).exec o s) ∧
+    Agree (fun _ _ => True) (Rapid.SM.exec o (Rapid.Translated.shrinker_minimizeBlocks fuel) s) ((minimizeBlocks fm 0).exec o s) ∧
+    Agree (fun _ _ => True) (Rapid.SM.exec o (Rapid.Translated.shrinker_lowerFloatHack fuel) s) ((lowerFloatHack fm 0).exec o s) ∧
+    Agree (fun _ _ => True) (Rapid.SM.exec o (Rapid.Translated.shrinker_removeGroupsAndLower fuel) s) ((removeGroupsAndLower fm 0).exec o s) ∧
+    Agree (fun _ _ => True) (Rapid.SM.exec o (Rapid.Translated.shrinker_sortGroups fuel) s) ((sortGroups fm 1).exec o s) ∧
+    Agree (fun _ _ => True) (Rapid.SM.exec o (Rapid.Translated.shrinker_removeGroupSpans fuel) s) ((removeGroupSpans fm 0).exec o s) :=
+  ⟨tr_removeGroups o wf fuel fm h s, tr_minimizeBlocks o wf fuel fm s h, tr_lowerFloatHack o wf fuel fm h s,
+   tr_removeGroupsAndLower o wf fuel fm h s, tr_sortGroups o wf fuel fm h s, tr_removeGroupSpans o wf fuel fm h s⟩
+
+/-- … and against rapid's own `accept`: from a state of an invariant that `accept` keeps, the translated `shrinker.shrink`
+    ends where `Script.run p (shrinkScript F)` ends — the run `passes_refine_shrinkWith` and `concrete_shrinker_result` are
+    about — or runs out of fuel -/
+theorem source_shrinker_run (p : Prog) (Inv : SS → Prop) (h : RunInv p Inv) (s0 : SS) (hs0 : Inv s0) (F fuel : Nat) (hf : fuel ≤ F) :
+    RunAgrees p s0 (shrinkScript F) (Rapid.SM.exec (runOracle p) (Rapid.Translated.shrinker_shrink fuel) s0) :=
+  tr_shrink_run p Inv h s0 hs0 F fuel hf
+
+/-- a shrinker whose recording is a float group followed by a word and that rejects everything -/
+def exOracle : Oracle Unit :=
+  ⟨fun _ => ⟨⟨[1, 2, 3, 4, 5, 6, 7, 8], [⟨"f", true, 0, 7, false⟩, ⟨"w", true, 7, 8, false⟩]⟩, 0⟩, fun _ _ => some (false, ())⟩
+
+/-- the hypotheses of `source_shrinker_passes` are satisfiable -/
+example : exOracle.WF ∧ (∀ s, (exOracle.view s).shrinks < 2 ^ 62) := by
+  have hsmall : ∀ g ∈ [(⟨"f", true, 0, 7, false⟩ : GI), ⟨"w", true, 7, 8, false⟩], g.Small := by
+    intro g hg
+    simp only [List.mem_cons, List.not_mem_nil, or_false] at hg
+    rcases hg with rfl | rfl <;> exact ⟨by decide, by decide, by decide⟩
+  refine ⟨⟨?_, ?_, ?_⟩, ?_⟩
+  · intro s; cases s; exact ⟨by decide, by decide, hsmall⟩
+  · intro _ g hg _
+    have hg' : g ∈ [(⟨"f", true, 0, 7, false⟩ : GI), ⟨"w", true, 7, 8, false⟩] := hg
+    simp only [List.mem_cons, List.not_mem_nil, or_false] at hg'
+    rcases hg' with rfl | rfl <;> decide
+  · intro _ _ _ _; rfl
+  · intro s; cases s; decide
 
 end Rapid.C05
